@@ -22,7 +22,9 @@ func init() {
 			{Name: "tables", N: core.Const(9, 33), Run: runTables},
 			{Name: "laws", N: lawsN, Run: runLaws},
 			{Name: "history", N: core.Const(3000, 24000), Run: runHistory, TimeoutS: 1800, Shard: 100},
+			{Name: "concurrent", N: core.Const(16, 128), Run: runConcurrent, Race: true, NRace: core.Const(4, 16), TimeoutS: 600},
 		},
+		RaceFiles:     []string{"pkg/obiseq/"},
 		MinNontrivial: 1000,
 		Post: func(tier string, counters map[string]int64) (inconclusive []string) {
 			if counters["history_steps"] < 10000 {
